@@ -32,8 +32,10 @@ def Params.metaBytes (P : Params) : Nat := P.sizeBytes + P.inBytes
 /-- side conditions under which the theorems are stated (checked for `Params.gen` by evaluation) -/
 structure Params.Ok (P : Params) : Prop where
   size_pos : 0 < P.sizeMax
-  size_fits : P.sizeMax + 1 = 2 ^ (8 * P.sizeBytes)
-  in_fits : P.inMax + 1 = 2 ^ (8 * P.inBytes)
+  /-- `LYB_SIZE_MAX` is an all-ones mask that fits into `LYB_SIZE_BYTES` bytes -/
+  size_fits : ∃ b, P.sizeMax + 1 = 2 ^ b ∧ b ≤ 8 * P.sizeBytes
+  /-- `LYB_INCHUNK_MAX` is an all-ones mask that fits into `LYB_INCHUNK_BYTES` bytes -/
+  in_fits : ∃ b, P.inMax + 1 = 2 ^ b ∧ b ≤ 8 * P.inBytes
 
 /-! ### little-endian fields -/
 
@@ -89,6 +91,8 @@ def wellNestedFrom : Nat → List Op → Bool
   | d, .write _ :: r => wellNestedFrom d r
 
 def WellNested (ops : List Op) : Prop := wellNestedFrom 0 ops = true
+
+instance (ops : List Op) : Decidable (WellNested ops) := by unfold WellNested; infer_instance
 
 /-! ### the full-chunk scan
 
